@@ -24,3 +24,14 @@ pub fn handle(words: &[&str]) -> String {
     }
     format!("{re} {bits}")
 }
+
+/// `rxwrap EXT PATTERN`: the -regex wrapper's inside_group (hex of the result)
+pub fn handle_rxwrap(words: &[&str]) -> String {
+    let [ext, pat] = words else {
+        return "badcase".into();
+    };
+    let Ok(p) = String::from_utf8(unhex(pat)) else {
+        return "badutf8".into();
+    };
+    hex(findutils::find::matchers::regex_verif::inside_group(&p, *ext == "1").as_bytes())
+}
